@@ -281,11 +281,43 @@ func checkC19(w *World, r *Report) {
 			w.paramEnv = saved
 		})
 		var existsIf *ifFact
+		// flagFn/flagAP: the function that holds the flag cell and the ReadJob call, and the cell's access
+		// path there; flagCall: the call of that function in the handler when it is a helper
+		flagFn, flagAP := h, ""
+		var flagCall *ssa.Call
 		facts := w.ifFacts(h)
 		for i, f := range facts {
-			if f.Atom.Op == "true" && strings.HasPrefix(f.Atom.L, "local:") && blockReturns(f.If.Block().Succs[f.SuccFalse], func(*ssa.Return) bool { return true }) {
+			if f.Atom.Op != "true" || !blockReturns(f.If.Block().Succs[f.SuccFalse], func(*ssa.Return) bool { return true }) {
+				continue
+			}
+			if strings.HasPrefix(f.Atom.L, "local:") {
 				// candidate: a captured bool set by the ReadJob callback
 				existsIf = &facts[i]
+				flagFn, flagAP, flagCall = h, f.Atom.L, nil
+				continue
+			}
+			// … or the bool result of a helper that does the ReadJob and returns the flag
+			cond := w.Resolve(f.If.Cond)
+			if ex, ok := cond.(*ssa.Extract); ok && ex.Index == 0 {
+				if c, ok := ex.Tuple.(*ssa.Call); ok {
+					g := c.Call.StaticCallee()
+					if g != nil && g.Blocks != nil && w.InModule(g) && len(findCalls(g, func(n string, _ *ssa.CallCommon) bool { return strings.HasSuffix(n, "PipelineRunner).ReadJob") })) == 1 {
+						var cell string
+						nret := 0
+						allInstrs(g, func(in ssa.Instruction) {
+							if rt, ok := in.(*ssa.Return); ok && len(rt.Results) >= 1 && rt.Block() != g.Recover {
+								nret++
+								if ld, ok := rt.Results[0].(*ssa.UnOp); ok {
+									cell = w.apAddr(ld.X)
+								}
+							}
+						})
+						if nret == 1 && strings.HasPrefix(cell, "local:") {
+							existsIf = &facts[i]
+							flagFn, flagAP, flagCall = g, cell, c
+						}
+					}
+				}
 			}
 		}
 		for _, rd := range readers {
@@ -317,12 +349,28 @@ func checkC19(w *World, r *Report) {
 		// the flag is set only when the job has the task (under ReadJob)
 		okSet := false
 		if existsIf != nil {
-			for _, cl := range h.AnonFuncs {
+			// the requested task / job id as the flag function sees them: its own locals, or the helper's
+			// parameters that the handler binds to them
+			taskAP, idAP := "local:params.Task", "uuid.FromString(local:params.Id)#0"
+			if flagCall != nil {
+				taskAP, idAP = "?", "?"
+				for i, p := range flagFn.Params {
+					if i < len(flagCall.Call.Args) {
+						switch a := w.AP(flagCall.Call.Args[i]); {
+						case a == "local:params.Task":
+							taskAP = w.AP(p)
+						case strings.Contains(a, "uuid.FromString(local:params.Id)#0"):
+							idAP = w.AP(p)
+						}
+					}
+				}
+			}
+			for _, cl := range flagFn.AnonFuncs {
 				pr := w.EnumPaths(cl, EnumOpts{})
 				for _, p := range pr.Paths {
 					sets := false
 					for _, e := range p.Effects {
-						if e.Kind == "store" && e.Target == existsIf.Atom.L && e.Val == "true" {
+						if e.Kind == "store" && e.Target == flagAP && e.Val == "true" {
 							sets = true
 						}
 					}
@@ -332,7 +380,7 @@ func checkC19(w *World, r *Report) {
 					okSet = true
 					has := false
 					for _, l := range p.Lits {
-						if strings.Contains(l.Atom.L, "ByName(c1.arg0.Tasks,local:params.Task)") && l.Atom.R == "nil" && !l.Val {
+						if strings.Contains(l.Atom.L, "ByName(c1.arg0.Tasks,"+taskAP+")") && l.Atom.R == "nil" && !l.Val {
 							has = true
 						}
 					}
@@ -342,8 +390,8 @@ func checkC19(w *World, r *Report) {
 				}
 			}
 			// and the callback runs under ReadJob for the requested id
-			rj := findCalls(h, func(n string, _ *ssa.CallCommon) bool { return strings.HasSuffix(n, "PipelineRunner).ReadJob") })
-			okSet = okSet && len(rj) == 1 && strings.Contains(w.AP(rj[0].Common().Args[1]), "uuid.FromString(local:params.Id)#0")
+			rj := findCalls(flagFn, func(n string, _ *ssa.CallCommon) bool { return strings.HasSuffix(n, "PipelineRunner).ReadJob") })
+			okSet = okSet && len(rj) == 1 && strings.Contains(w.AP(rj[0].Common().Args[1]), idAP)
 		}
 		r.Check(okSet, "membership.flag", hname+": task-exists flag", w.Pos(h.Pos()), "set only in the ReadJob callback of the requested job when ByName(requested task) != nil", "the task-exists flag is not (only) set when the requested job has the requested task")
 	}
